@@ -40,7 +40,10 @@ pub fn name_key(l: &Labels) -> String {
 #[derive(Clone, Debug)]
 pub struct GroupVerdict {
     pub owner: Labels,
+    pub class: u16,
     pub rtype: u16,
+    /// RDATA (names expanded, case kept) of the members of this RRset as served
+    pub members: Vec<Vec<u8>>,
     pub allowed: bool,
     /// the reference could not decide (unsupported algorithm somewhere): do not judge
     pub unknown: bool,
@@ -254,7 +257,9 @@ pub fn evaluate(table: &Table, anchors: &[(u8, Vec<u8>)], query: &(String, u16),
         };
         out.push(GroupVerdict {
             owner: g.owner.clone(),
+            class: g.class,
             rtype: g.rtype,
+            members: g.rrs.iter().map(|r| r.rdata.clone()).collect(),
             allowed,
             unknown,
             why,
